@@ -4,6 +4,19 @@
 // and the adapter by name and never looks inside.
 use std::vec::Vec;
 use std::string::String;
+use std::sync::atomic::{AtomicBool, AtomicUsize, Ordering};
+
+/// Heap allocations made while library code (not the harness) is running: counted by the replay binary's
+/// global allocator while `TRACK` is on; every harness routine switches it off for its own duration.
+pub static TRACK: AtomicBool = AtomicBool::new(false);
+pub static ALLOCS: AtomicUsize = AtomicUsize::new(0);
+
+pub fn harness<R>(f: impl FnOnce() -> R) -> R {
+    let prev = TRACK.swap(false, Ordering::SeqCst);
+    let r = f();
+    TRACK.store(prev, Ordering::SeqCst);
+    r
+}
 
 #[derive(Clone, Debug, PartialEq)]
 pub enum Arg {
@@ -185,6 +198,10 @@ impl<A: FromRet, B: FromRet, C: FromRet, D: FromRet> FromRet for (A, B, C, D) {
 impl Rec {
     /// Called by every generated handler: records the call, answers from the script.
     pub fn hit<T: FromRet>(&mut self, id: usize, args: Vec<Arg>) -> Result<T, microscpi::Error> {
+        harness(|| self.hit_inner(id, args))
+    }
+
+    fn hit_inner<T: FromRet>(&mut self, id: usize, args: Vec<Arg>) -> Result<T, microscpi::Error> {
         self.events.push(Event::Call(id, args));
         let k = self.calls;
         self.calls += 1;
@@ -197,8 +214,10 @@ impl Rec {
     }
 
     pub fn error(&mut self, e: microscpi::Error) {
-        let text: &str = e.into();
-        self.events.push(Event::Error(e.number(), String::from(text)));
+        harness(|| {
+            let text: &str = e.into();
+            self.events.push(Event::Error(e.number(), String::from(text)));
+        })
     }
 }
 
